@@ -216,10 +216,21 @@ def run(ctx, rep):
     imp = sorted(nm for nm in ext if IMPURE.search(nm))
     rep.check(not imp, "G", "C11|G|impure-callees", None, "functions reachable from validation / add_content call clock, environment, file, thread or random sources: %r" % (imp,),
               sample={"external callees scanned": len(ext)})
+    # ---- S3: tree-less files keep emission order
+    rep.rule("S3", "files without a tree are not sorted: their list is the parser's emission order, ascending only if every recovery diagnostic sits on the token lalrpop blames (tokens are consumed left to right, the fatal error comes last): "
+                   "the recovery actions forward lalrpop's ErrorRecovery untouched (wiring), from_error_recovery keeps the converted range (S4), from_parse_error reports on the token's own boundaries (G1), add_content appends the fatal error after them (append-only)")
+    import c03
+    import c04
+    import common_g
+    n, _ = common_g.emit(ctx, rep, "C11", {"recovery"}, "S3")
+    rep.floor("S3", "error-recovery productions", n, 4)
+    c03.recovery_keeps_range(ctx, rep, "C11")
+    c04.parse_error_ranges(ctx, rep, "C11")
+    c03.append_only_rule(ctx, rep, "C11")
     rep.assumptions += ["TB-1 rustc MIR", "TB-3 std: HashMap::insert overwrites, min is unique on distinct totally ordered elements, sort_by_key is stable",
                         "TB-2 order of syntax diagnostics of tree-less files is lalrpop's emission order (NOT decided)",
                         "Annotation.key_values is compared with HashMap's order-insensitive ==; serialised text is outside this property"]
-    rep.not_decided.append("order for tree-less files (lalrpop's emission order)")
+    rep.not_decided.append("that lalrpop emits recovery errors left to right (TB-2); rule S3 decides only that each one is reported where lalrpop puts it")
 
 
 def callee_name(t):
